@@ -180,3 +180,23 @@ Theorem C09_decomposed_flip_keeps_weight : forall H sl st b n flips,
   (weight_product H (fst (apply_flips sl st b flips)) == weight_product H sl)%Q.
 Proof. exact decomposed_flip_weight. Qed.
 Print Assumptions C09_decomposed_flip_keeps_weight.
+
+(* TOTAL CORRECTNESS of the decomposition (Proofs/DecomposeTotal.v): with the fuel the model supplies, the
+   transcribed algorithm returns a labelling for EVERY operator string (potential argument: one iteration of the
+   inner loop lowers |interior stack| + W, one iteration of the outer loop lowers |frontier| + W), and that
+   labelling passes both validators *)
+From QmcV Require Import Proofs.DecomposeTotal.
+Theorem C09_decomposition_total : forall sl, decompose sl <> None.
+Proof. exact decompose_total. Qed.
+Print Assumptions C09_decomposition_total.
+
+Theorem C09_decomposition_correct : forall sl,
+  exists b n, decompose sl = Some (b, n) /\ links_ok sl b = true /\ sides_ok sl b = true.
+Proof. exact decompose_correct. Qed.
+Print Assumptions C09_decomposition_correct.
+
+(* so the cluster update of the model IS the fair-bit kernel, with no side condition *)
+Theorem C09_cluster_update_is_kernel_total : forall c (f : cfg -> Q),
+  (expect (cluster_cfg c) f == expect (gkernel cl_act cl_k c) f)%Q.
+Proof. exact cluster_cfg_is_gkernel_total. Qed.
+Print Assumptions C09_cluster_update_is_kernel_total.
